@@ -89,8 +89,13 @@ impl Image {
     /// deterministic digest of the visible files
     pub fn digest(&self) -> u64 {
         let mut h = 0xcbf2_9ce4_8422_2325u64;
-        for (n, i) in &self.names {
-            h ^= sim::fnv64(n.as_bytes());
+        // (in name order: the map's iteration order is not part of the image)
+        let mut names: Vec<_> = self.names.iter().collect();
+        names.sort();
+        for (n, i) in names {
+            // (node and file name only: the run's scratch root carries the process id)
+            let rel: Vec<&str> = n.rsplit('/').take(2).collect();
+            h ^= sim::fnv64(rel.join("/").as_bytes());
             h = h.wrapping_mul(0x0000_0100_0000_01b3);
             if let Some(d) = self.inodes.get(i) {
                 h ^= sim::fnv64(d);
